@@ -385,3 +385,16 @@ def native():
             yield
     else:
         yield
+
+
+def concretize(x):
+    """turn CrossHair shell containers (e.g. the proxy returned for set() under tracing) back into plain Python
+    values; identity when not tracing.  Only used on values that are already concrete by construction."""
+    try:
+        from crosshair.core import deep_realize
+        from crosshair.tracers import is_tracing
+    except Exception:
+        return x
+    if is_tracing():
+        return deep_realize(x)
+    return x
